@@ -13,7 +13,7 @@ LEVEL_TEXT = (
     "phi insertion is iterated over the dominance frontier of every writing block with an unconditional re-queue; renaming runs"
     " block -> successors' phis -> dominator children with paired scopes; pipeline order of into_ssa; phis are prepended and matched"
     " by the full variable name; only locals are versioned; version keys are injective in (name, suffix) and shared by all"
-    " accessors; every child expression is renamed; every version gets a declaration; the version environment evaluated over enter / leave / assign / read sequences (a read sees the innermost live assignment only).; the generic driver (phi insertion, renaming worker) and the provided block methods are evaluated on model graphs against the textbook definitions (iterated dominance frontier; every edge hands the phi the definition reaching the end of its source); no provided method of the SSA traits is overridden."
+    " accessors; every child expression is renamed; every version gets a declaration; the version environment evaluated over enter / leave / assign / read sequences (a read sees the innermost live assignment only).; the generic driver (phi insertion, renaming worker) and the provided block methods are evaluated on model graphs against the textbook definitions (iterated dominance frontier; every edge hands the phi the definition reaching the end of its source); no provided method of the SSA traits is overridden. No return leaves an arm of the renaming traversal before every child expression was handed to the visitor (path rule)."
 )
 NOT_DECIDED = "reaching-definition correctness per path (that each read names the version assigned last on every path)."
 TRUSTED = ["syn parser", "identifier alphabet read from the grammar"]
